@@ -22,7 +22,7 @@ def budget(tier):
 
 def gen_cases(rng, n, tier):
     cfgs = (B.all_cfgs('blog', dict(excl_notes=True))[::2] + B.all_cfgs('blog')[::4]
-            + B.all_cfgs('blog', dict(include_x=True))[::8])
+            + B.all_cfgs('blog', dict(include_x=True))[::8] + B.all_cfgs('blog', dict(excl_fk=True))[::4])
     cases = B.gen_cases_default(rng, n, tier, cfgs=cfgs)
     # bias: inject excluded-only transactions
     for i, c in enumerate(cases):
@@ -30,12 +30,19 @@ def gen_cases(rng, n, tier):
             extra = [['set', 0, rng.choice([1, 2]), {'x': rng.choice([0, 1, 2, None])}], ['commit']]
             if c['cfg'].get('excl_notes') and rng.random() < 0.7:
                 extra = [['add', 3, 1, {'a': 0}], ['commit'], ['noteto', 1, rng.choice([1, 2])], ['commit']] + extra
+            if c['cfg'].get('excl_fk'):
+                # only the excluded foreign-key column changes, through the (non-excluded) relationship
+                extra = [['add', 1, 5, {'a': 1}], ['commit'], ['tagto', 5, rng.choice([1, 2])], ['commit'],
+                         ['tagto', 5, None], ['commit']] + extra
             c['prog'] = c['prog'] + extra
     return cases
 
 
 def corpus():
-    return [dict(cfg=dict(shape='blog', strategy='validity', excl_notes=True),
+    return [dict(cfg=dict(shape='blog', strategy='validity', excl_fk=True),
+                 prog=[['add', 0, 1, {'a': 1}], ['add', 1, 1, {'a': 0}], ['commit'], ['tagto', 1, 1], ['commit'],
+                       ['tagto', 1, None], ['commit']]),
+            dict(cfg=dict(shape='blog', strategy='validity', excl_notes=True),
                  prog=[['add', 0, 1, {'a': 1}], ['add', 3, 1, {'a': 0}], ['commit'], ['noteto', 1, 1], ['commit'],
                        ['set', 0, 1, {'x': 5}], ['commit'], ['set', 0, 1, {'x': 6}], ['tagappend', 1, 1], ['commit']])]
 
@@ -45,7 +52,8 @@ def nontrivial(case, obs):
     for op in case['prog']:
         if op[0] == 'commit':
             seen_commit = True
-        if seen_commit and ((op[0] == 'set' and op[1] == 0 and 'x' in op[3]) or op[0] == 'noteto'):
+        if seen_commit and ((op[0] == 'set' and op[1] == 0 and 'x' in op[3]) or op[0] == 'noteto'
+                            or (op[0] == 'tagto' and case['cfg'].get('excl_fk'))):
             return True
     return False
 
